@@ -9,7 +9,7 @@ from .. import gen
 from ..base import Outcome
 from ..cmp import groups_match, mismatch_vs_ref, tol_for
 from ..codec import dec
-from ..floxcall import eager_reduce, reduce_kwargs
+from ..floxcall import eager_reduce, reduce_kwargs, relayout
 from ..ref import UNSPEC, ref_1d
 
 ID = "C01"
@@ -50,7 +50,7 @@ def cases(draw, tier="quick"):
     batch = draw(st.sampled_from([[], [], [], [2], [3], [1], [2, 2], [1, 3]]))
     nb = int(np.prod(batch)) if batch else 1
     vals = gen.draw_values(draw, n * nb, dt, func)
-    lab = gen.draw_labels(draw, n)
+    lab = gen.draw_labels(draw, n, kinds=gen.LABEL_KINDS + ["datetime"])
     case = {
         "arr": {"dt": dt, "sh": batch + [n], "v": vals},
         "by": lab["spec"],
@@ -61,7 +61,7 @@ def cases(draw, tier="quick"):
     # requested subset of the present labels: unrequested labels must contribute nowhere
     present = []
     for v in lab["spec"]["v"]:
-        if v != "nan" and v not in present:
+        if v not in ("nan", "nat") and v not in present:
             present.append(v)
     if present and draw(st.integers(0, 3)) == 0:
         k = draw(st.integers(1, len(present)))
@@ -74,6 +74,7 @@ def cases(draw, tier="quick"):
     if draw(st.integers(0, 5 if tier == "quick" else 3)) == 0 and dt in ("<f8", "<i8", "<f4", "|b1"):
         engines.append("numba")
     case["engines"] = engines
+    case["layout"] = draw(st.sampled_from([None, None, None, "F", "strided"]))
     # an explicit dtype= (values must be unaffected apart from the cast; numbagg refuses dtype=)
     if draw(st.integers(0, 4)) == 0 and func not in ("any", "all", "count") and "arg" not in func:
         if "f" in dt or func_is_float(func):
@@ -99,6 +100,8 @@ def reference(arr, by, case):
         from ..codec import unnum
 
         requested = [unnum(x) for x in case["expected"]["labels"]]
+        if by.dtype.kind == "M":
+            requested = [np.datetime64(int(x), "ns") for x in requested]
     rows = arr.reshape(-1, arr.shape[-1])
     out = []
     for r in rows:
@@ -108,8 +111,8 @@ def reference(arr, by, case):
 
 def execute(case) -> Outcome:
     out = Outcome()
-    arr = dec(case["arr"])
-    by = dec(case["by"])
+    arr = relayout(dec(case["arr"]), case.get("layout"))
+    by = relayout(dec(case["by"]), case.get("layout"))
     func = case["func"]
     kw = reduce_kwargs(case)
     refs = reference(arr, by, case)
@@ -121,9 +124,9 @@ def execute(case) -> Outcome:
         rtol = 1e-6
 
     # non-triviality
-    labs = [x for x in case["by"]["v"] if x != "nan"]
+    labs = [x for x in case["by"]["v"] if x not in ("nan", "nat")]
     unsorted = any(a > b for a, b in zip(labs[:-1], labs[1:])) if labs else False
-    has_missing = any(x == "nan" for x in case["by"]["v"])
+    has_missing = any(x in ("nan", "nat") for x in case["by"]["v"])
     neg = any((not isinstance(v, str)) and v < 0 for v in case["arr"]["v"])
     nan_in_multi = False
     if arr.dtype.kind == "f":
